@@ -151,6 +151,20 @@ func genC15(rng *rand.Rand, tier string) *sim.Plan {
 			break
 		}
 	}
+	if maybeRedis(rng, p, 0.3) && chance(rng, 0.7) {
+		// storage faults: a few of the broker's redis commands fail (error reply) or lose their connection; whatever
+		// the broker makes of it, it must not dead-lock, panic, stop answering, or hang in Stop
+		var errs, drops []string
+		for k := 0; k < 1+rng.IntN(4); k++ {
+			at := fmt.Sprint(3 + rng.IntN(40)*rng.IntN(12))
+			if chance(rng, 0.6) {
+				errs = append(errs, at)
+			} else {
+				drops = append(drops, at)
+			}
+		}
+		p.Params["redis_err_at"], p.Params["redis_drop_at"] = strings.Join(errs, " "), strings.Join(drops, " ")
+	}
 	return p
 }
 
@@ -159,6 +173,11 @@ func oracleC15(p *sim.Plan, out *sim.Outcome) []sim.Violation {
 	h := out.H
 	w := out.W
 	if out.LoopErr != nil {
+		if strings.Contains(out.LoopErr.Error(), "Run returned before Stop") && p.Params["redis_err_at"]+p.Params["redis_drop_at"] != "" {
+			// an injected storage fault hit the start-up sequence: refusing to start is a legitimate answer
+			out.Probes["storage_fault_during_startup"]++
+			return vs
+		}
 		vs = append(vs, viol("C15", "bounded_response", "no-progress", "the simulation did not come to an end: %v", out.LoopErr))
 		return vs
 	}
